@@ -987,7 +987,7 @@ func fabricated(s Src, slot string, allowedConst map[string]bool) string {
 		}
 		return "time value in a text slot"
 	case "sliceof":
-		if strings.Contains(s.A, "P(config).logEntry") || strings.Contains(s.A, "P(logentry)") {
+		if s.A == "config.logEntry" || strings.Contains(s.A, "P(config).logEntry") || strings.Contains(s.A, "P(logentry)") {
 			return ""
 		}
 		return "slice of " + s.A + ", not of the line"
